@@ -342,3 +342,10 @@ def header_word_prose(rng, words=None, max_words=6, terminal="."):
     else:
         s = "%s, %s %s %s" % (a, rng.choice(["see", "cf.", "as in", "and"]), w, b)
     return s + terminal if terminal else s
+
+
+# ReST field look-alikes: field names of Sphinx / epydoc that are NOT field tokens of docstring_utils.TOKENS.rest on the
+# unchanged tree (":param", ":cvar", ":ivar", ":var", ":type", ":return", ":rtype"), so in running prose they are plain words
+REST_FIELD_LOOKALIKES = [":raises ValueError:", ":raises:", ":raise E:", ":except E:", ":keyword k:", ":key k:", ":kwarg k:",
+                         ":arg x:", ":argument x:", ":meta private:", ":yields:", ":yield:", ":note:", ":example:",
+                         ":seealso:", ":attr:`x`", ":class:`X`", ":func:`f`"]
